@@ -6,6 +6,7 @@ import pcommon
 from cxxheaderparser.errors import CxxParseError
 from cxxheaderparser.simple import parse_string
 
+TECHNIQUE = 'Lean 4: syntactic regex cost analysis polyOK decided by the kernel on the rules regenerated from the live master regex, with soundness theorems bounding paths and backtracking search polynomially for every input; timing families on the implementation as failing-input search'
 LEAN_TARGET = "CxxModel.Props.C07"
 THEOREMS = ["Cxx.C07_all_rules_poly", "Cxx.C07_paths_bound", "Cxx.C07_cost_bound", "Cxx.C07_matcher_is_paths", "Cxx.C07_rep_bodies_nonnull",
             "Cxx.polyOK_paths_le", "Cxx.polyOK_cost_le", "Cxx.singleB_sound"]
